@@ -30,18 +30,22 @@ Record gen_dispatch := {
       are those of hello (ver) and onLogin (uid, authLvl) *)
   gd_writers : bool;
   (** assignments to the same fields of a session object elsewhere in package main
-      ("file:function:lvalue", syntactic) *)
+      ("file:function:lvalue = rvalue", syntactic) *)
   gd_foreign_writers : list string
 }.
 
-(** The foreign writers the model accounts for: the log-out side effect of the 'me' / 'fnd'
-    topic initialisers (oracle field [logout] of [BTopic], see finding
-    obo-sub-missing-user-logs-out-session) and the scratch Session value that a proxy topic
-    fills in to forward a background-session update to the topic master (never a client
-    connection). *)
-Definition known_foreign_writers : list string :=
-  ["init_topic.go:initTopicMe:sreg.sess.uid"; "init_topic.go:initTopicFnd:sreg.sess.uid";
-   "topic_proxy.go:runProxy:tmpSess.uid"]%string.
+(** Foreign writers the obligation accepts:
+    - assignments of the zero uid / the level none (a log-out can never authenticate; the
+      one of the 'me' / 'fnd' topic initialisers is the oracle field [logout] of [BTopic],
+      finding obo-sub-missing-user-logs-out-session);
+    - the scratch Session value that a proxy topic fills in to forward a background-session
+      update to the topic master (never a client connection). *)
+Definition ends_with (s suf : string) : bool :=
+  String.eqb (substring (String.length s - String.length suf) (String.length suf) s) suf.
+
+Definition foreign_ok (w : string) : bool :=
+  ends_with w " = types.ZeroUid" || ends_with w " = auth.LevelNone" ||
+  String.eqb w "topic_proxy.go:runProxy:tmpSess.uid = pssd.uid".
 
 Fixpoint table_of (es : list gen_entry) : option table :=
   match es with
@@ -52,7 +56,7 @@ Fixpoint table_of (es : list gen_entry) : option table :=
 
 Definition gen_ok (g : gen_dispatch) : bool :=
   gd_checkvers g && gd_checkuser g && gd_asuser g && gd_default g && gd_called g && gd_writers g &&
-  forallb (fun w => existsb (String.eqb w) known_foreign_writers) (gd_foreign_writers g) &&
+  forallb foreign_ok (gd_foreign_writers g) &&
   match table_of (gd_entries g) with Some t => table_ok t | None => false end.
 
 (** The table used when the obligation holds (closed everywhere otherwise). *)
